@@ -19,6 +19,7 @@ mod v_socket_dns {
     const LOCAL4: Ipv4Address = Ipv4Address::new(192, 168, 1, 1);
     const LOCAL6: Ipv6Address = Ipv6Address::new(0x2001, 0xdb8, 0, 0, 0, 0, 0, 1);
     const S4: Ipv4Address = Ipv4Address::new(8, 8, 8, 8);
+    const S4B: Ipv4Address = Ipv4Address::new(9, 9, 9, 9);
     const S6: Ipv6Address = Ipv6Address::new(0x2001, 0xdb8, 0, 0, 0, 0, 0, 0x53);
 
     /// The socket's query storage is always a prefix of a larger array: CBMC's symbolic execution cannot decide
@@ -53,18 +54,18 @@ mod v_socket_dns {
         }
     }
 
-    /// `<2>xx<1>x<0>` with the given label bytes, built with typed pushes (writing single bytes through the
-    /// `[u8]` view of the heapless buffer makes CBMC treat the whole name, layout included, as symbolic)
-    fn name_of(qn: [u8; 3]) -> Vec<u8, DNS_MAX_NAME_SIZE> {
+    /// `<1>x<1>y<0>` with the given label bytes
+    fn name_of(qn: [u8; 2]) -> Vec<u8, DNS_MAX_NAME_SIZE> {
         let mut v = Vec::new();
-        v.push(2).unwrap();
-        v.push(qn[0]).unwrap();
-        v.push(qn[1]).unwrap();
         v.push(1).unwrap();
-        v.push(qn[2]).unwrap();
+        v.push(qn[0]).unwrap();
+        v.push(1).unwrap();
+        v.push(qn[1]).unwrap();
         v.push(0).unwrap();
         v
     }
+    const QNAME: &str = "a.b";
+    const QNAME_RAW: [u8; 5] = [1, b'a', 1, b'b', 0];
 
     fn type_val(is_a: bool) -> u16 {
         if is_a { 1 } else { 28 }
@@ -72,10 +73,11 @@ mod v_socket_dns {
 
     // ------------------------------------------------------------------ RFC 1035 byte templates
     const NB: usize = 64;
-    /// offset of the question name `[2, x, x, 1, x, 0]`, of its last label, of the first answer record
+    /// offset of the question name `[1, x, 1, y, 0]`, of its last label, of its root octet, of the first answer record
     const QN_OFF: usize = 12;
-    const QSUF_OFF: usize = 15;
-    const ANS_OFF: usize = 22;
+    const QSUF_OFF: usize = 14;
+    const QROOT_OFF: usize = 16;
+    const ANS_OFF: usize = 21;
 
     struct Tpl {
         b: [u8; NB],
@@ -117,12 +119,12 @@ mod v_socket_dns {
         flags: u16,
         qd: u16,
         an: u16,
-        rq: [u8; 3],
+        rq: [u8; 2],
         rqtype: u16,
         rqclass: u16,
     }
 
-    /// 12-byte header, every field symbolic, then one question `<2>xx<1>x<0> TYPE CLASS`
+    /// 12-byte header, every field symbolic, then one question `<1>x<1>y<0> TYPE CLASS`
     fn put_header_question(t: &mut Tpl, qclass: u16) -> Hdr {
         let id = t.sym16();
         let flags = t.sym16();
@@ -130,17 +132,16 @@ mod v_socket_dns {
         let an = t.sym16();
         let _ns = t.sym16();
         let _ar = t.sym16();
-        t.put(2);
-        let r0 = t.sym();
-        let r1 = t.sym();
         t.put(1);
-        let r2 = t.sym();
+        let r0 = t.sym();
+        t.put(1);
+        let r1 = t.sym();
         t.put(0);
         let rqtype = t.sym16();
         // concrete: a symbolic CLASS makes Question::parse fail under a symbolic condition (see `Owner`)
         t.put16(qclass);
         let rqclass = qclass;
-        Hdr { id, flags, qd, an, rq: [r0, r1, r2], rqtype, rqclass }
+        Hdr { id, flags, qd, an, rq: [r0, r1], rqtype, rqclass }
     }
 
     /// owner-name form of an answer record (the case split of DESIGN.md C19).  Pointer targets are concrete per
@@ -149,11 +150,11 @@ mod v_socket_dns {
     /// memory).  The targets are instead enumerated as concrete forms.
     #[derive(Clone, Copy, PartialEq, Eq)]
     enum Owner {
-        /// `<2>xx<1>x<0>` with symbolic label bytes
+        /// `<1>x<1>y<0>` with symbolic label bytes
         Inline,
         /// compression pointer to the given offset (QN_OFF = the question name, SELF = itself)
         Ptr(usize),
-        /// `<2>xx` then a compression pointer to the given offset
+        /// `<1>x` then a compression pointer to the given offset
         LabelPtr(usize),
     }
     const SELF: usize = 0xffff;
@@ -193,8 +194,7 @@ mod v_socket_dns {
     fn put_owner(t: &mut Tpl, o: Owner) {
         match o {
             Owner::Inline => {
-                t.put(2);
-                t.sym();
+                t.put(1);
                 t.sym();
                 t.put(1);
                 t.sym();
@@ -206,8 +206,7 @@ mod v_socket_dns {
             }
             Owner::LabelPtr(to) => {
                 let own = t.n;
-                t.put(2);
-                t.sym();
+                t.put(1);
                 t.sym();
                 put_ptr(t, to, own);
             }
@@ -392,14 +391,16 @@ mod v_socket_dns {
     fn process_form(f: Form) -> Out {
         dns_env!(dev, iface, cx, now);
         let mut slots: [Option<DnsQuery>; 1 + PAD] = [None, None, None];
-        let servers = [IpAddress::Ipv4(S4), IpAddress::Ipv6(S6)];
+        // IPv4 servers only: comparing two IPv6 addresses is a 16-byte memcmp and would set the unwind bound of the
+        // whole harness (IPv6 servers: dns_accepts)
+        let servers = [IpAddress::Ipv4(S4), IpAddress::Ipv4(S4B)];
         let mut s = Socket::new(&servers[..], &mut slots[..1]);
         let is_a: bool = kani::any();
         let qtype = if is_a { Type::A } else { Type::Aaaa };
-        let h = s.start_query(cx, "ab.c", qtype).unwrap();
+        let h = s.start_query(cx, QNAME, qtype).unwrap();
 
         // private state as `dispatch` may have left it, identity fields arbitrary
-        let qn: [u8; 3] = kani::any();
+        let qn: [u8; 2] = kani::any();
         let txid: u16 = kani::any();
         let port: u16 = kani::any();
         kani::assume(port > 1024);
@@ -409,7 +410,7 @@ mod v_socket_dns {
         let delay = Duration::from_millis(1000 + any_le(9000) as u64);
         {
             let pq = pending_of(&mut s, 0);
-            assert!(pq.name.as_slice() == &[2u8, b'a', b'b', 1, b'c', 0][..], "prop:c19_start_query_encodes_labels");
+            assert!(pq.name.as_slice() == &QNAME_RAW[..], "prop:c19_start_query_encodes_labels");
             pq.name = name_of(qn);
             pq.txid = txid;
             pq.port = port;
@@ -456,10 +457,10 @@ mod v_socket_dns {
             })
         };
         let udp_repr = UdpRepr { src_port: sport, dst_port: dport };
-        let from_server = if v4 { so[0] == 8 && so[1] == 8 && so[2] == 8 && so[3] == 8 } else { s6lo == 0x53 };
+        let from_server = v4 && ((so[0] == 8 && so[1] == 8 && so[2] == 8 && so[3] == 8) || (so[0] == 9 && so[1] == 9 && so[2] == 9 && so[3] == 9));
         let acc_ref = (sport == 53 && from_server) || sport == 5353;
 
-        crate::vdump!("QUERY name=[2,{},{},1,{},0] type={} txid={:#x} port={} idx={} ta={:?} ra={:?} delay={:?}", qn[0], qn[1], qn[2], type_val(is_a), txid, port, idx, ta, ra, delay);
+        crate::vdump!("QUERY name=[1,{},1,{},0] type={} txid={:#x} port={} idx={} ta={:?} ra={:?} delay={:?}", qn[0], qn[1], type_val(is_a), txid, port, idx, ta, ra, delay);
         crate::vdump!("RESPONSE from {:?} sport={} dport={} len={} bytes={:02x?}", ip_repr.src_addr(), sport, dport, n, &m[..n]);
 
         let acc = s.accepts(&ip_repr, &udp_repr);
@@ -474,11 +475,12 @@ mod v_socket_dns {
         let rcode = (hd.flags & 0xf) as u8;
         let id_ok = hd.id == txid;
         let port_ok = dport == port;
-        let qname_ok = hd.qd == 1 && n >= ANS_OFF && hd.rq[0] == qn[0] && hd.rq[1] == qn[1] && hd.rq[2] == qn[2];
+        let qname_ok = hd.qd == 1 && n >= ANS_OFF && hd.rq[0] == qn[0] && hd.rq[1] == qn[1];
         let qtype_ok = hd.rqtype == type_val(is_a);
         // answer records whose owner is the queried name or the current end of the CNAME chain
-        let zero = IpAddress::Ipv4(Ipv4Address::new(0, 0, 0, 0));
-        let mut exp = [zero; 2];
+        let mut exp_v4 = [true; 2];
+        let mut exp0 = [0u8; 16];
+        let mut exp1 = [0u8; 16];
         let mut exp_n = 0usize;
         let mut cur = QN_OFF;
         let mut unknown = false;
@@ -501,19 +503,21 @@ mod v_socket_dns {
                     unknown = true;
                 } else if e == 0 {
                     other_name = true;
-                } else if r.ty == 1 && r.rdlen == 4 {
-                    if exp_n < 2 {
-                        exp[exp_n] = IpAddress::Ipv4(Ipv4Address::new(m[r.rd_off], m[r.rd_off + 1], m[r.rd_off + 2], m[r.rd_off + 3]));
-                    }
-                    exp_n += 1;
-                } else if r.ty == 28 && r.rdlen == 16 {
+                } else if (r.ty == 1 && r.rdlen == 4) || (r.ty == 28 && r.rdlen == 16) {
                     let o = r.rd_off;
-                    let o16 = [
-                        m[o], m[o + 1], m[o + 2], m[o + 3], m[o + 4], m[o + 5], m[o + 6], m[o + 7],
-                        m[o + 8], m[o + 9], m[o + 10], m[o + 11], m[o + 12], m[o + 13], m[o + 14], m[o + 15],
-                    ];
-                    if exp_n < 2 {
-                        exp[exp_n] = IpAddress::Ipv6(Ipv6Address::from_octets(o16));
+                    let mut o16 = [m[o], m[o + 1], m[o + 2], m[o + 3], 0, 0, 0, 0, 0, 0, 0, 0, 0, 0, 0, 0];
+                    if r.ty == 28 {
+                        o16 = [
+                            m[o], m[o + 1], m[o + 2], m[o + 3], m[o + 4], m[o + 5], m[o + 6], m[o + 7],
+                            m[o + 8], m[o + 9], m[o + 10], m[o + 11], m[o + 12], m[o + 13], m[o + 14], m[o + 15],
+                        ];
+                    }
+                    if exp_n == 0 {
+                        exp0 = o16;
+                        exp_v4[0] = r.ty == 1;
+                    } else if exp_n == 1 {
+                        exp1 = o16;
+                        exp_v4[1] = r.ty == 1;
                     }
                     exp_n += 1;
                 } else if r.ty == 5 {
@@ -544,9 +548,8 @@ mod v_socket_dns {
                     pq.timeout_at == ta && pq.retransmit_at == ra && pq.delay == delay,
                     "prop:c19_rejected_response_leaves_query_timers_unchanged"
                 );
-                let same_name = pq.name.len() == 6
-                    && pq.name[0] == 2 && pq.name[1] == qn[0] && pq.name[2] == qn[1]
-                    && pq.name[3] == 1 && pq.name[4] == qn[2] && pq.name[5] == 0;
+                let same_name = pq.name.len() == 5
+                    && pq.name[0] == 1 && pq.name[1] == qn[0] && pq.name[2] == 1 && pq.name[3] == qn[1] && pq.name[4] == 0;
                 out.name_changed = !same_name;
                 assert!(same_name, "prop:c19_rejected_response_leaves_query_name_unchanged");
                 if f.complete {
@@ -554,8 +557,8 @@ mod v_socket_dns {
                     let r = recs[0];
                     let owner_ok = match f.o[0] {
                         Owner::Ptr(QN_OFF) => true,
-                        Owner::Inline => m[r.name_off + 1] == qn[0] && m[r.name_off + 2] == qn[1] && m[r.name_off + 4] == qn[2],
-                        Owner::LabelPtr(QSUF_OFF) => m[r.name_off + 1] == qn[0] && m[r.name_off + 2] == qn[1],
+                        Owner::Inline => m[r.name_off + 1] == qn[0] && m[r.name_off + 3] == qn[1],
+                        Owner::LabelPtr(QSUF_OFF) => m[r.name_off + 1] == qn[0],
                         _ => false,
                     };
                     let canonical = acc && port_ok && id_ok && qr && (hd.flags >> 11) & 0xf == 0 && rcode != 3 && qname_ok && qtype_ok
@@ -587,13 +590,18 @@ mod v_socket_dns {
                 assert!(na >= 1 && na <= DNS_MAX_RESULT_COUNT, "prop:c19_completed_query_has_addresses");
                 let k = any_lt(2);
                 if k < na {
+                    // address k of the result, octet j (no IpAddress == IpAddress: that is a memcmp loop)
                     let a = c.addresses[k];
-                    assert!(
-                        (exp_n >= 1 && a == exp[0]) || (exp_n >= 2 && a == exp[1]),
-                        "prop:c19_result_address_from_record_of_queried_name_or_cname_target"
-                    );
-                    assert!(k < exp_n && a == exp[k], "prop:c19_result_lists_matching_records_in_order");
-                    assert!(matches!(a, IpAddress::Ipv4(_)) == is_a, "prop:c19_result_address_of_requested_type");
+                    let j = any_lt(16);
+                    let (a_v4, a_j) = match a {
+                        IpAddress::Ipv4(x) => (true, if j < 4 { x.octets()[j] } else { 0 }),
+                        IpAddress::Ipv6(x) => (false, x.octets()[j]),
+                    };
+                    let is0 = exp_n >= 1 && a_v4 == exp_v4[0] && a_j == exp0[j];
+                    let is1 = exp_n >= 2 && a_v4 == exp_v4[1] && a_j == exp1[j];
+                    assert!(is0 || is1, "prop:c19_result_address_from_record_of_queried_name_or_cname_target");
+                    assert!(if k == 0 { is0 } else { is1 }, "prop:c19_result_lists_matching_records_in_order");
+                    assert!(a_v4 == is_a, "prop:c19_result_address_of_requested_type");
                 }
                 assert!(na == core::cmp::min(exp_n, 2), "prop:c19_result_lists_matching_records_in_order");
             }
@@ -671,7 +679,7 @@ mod v_socket_dns {
         let (sel, o) = one_of!(
             Form { o: [Owner::Ptr(SELF), Owner::Inline], ..F_ONE },
             Form { o: [Owner::Ptr(QSUF_OFF), Owner::Inline], ..F_ONE },
-            Form { o: [Owner::Ptr(QN_OFF + 5), Owner::Inline], ..F_ONE },
+            Form { o: [Owner::Ptr(QROOT_OFF), Owner::Inline], ..F_ONE },
             Form { o: [Owner::Ptr(ANS_OFF + 12), Owner::Inline], ..F_ONE },
             Form { o: [Owner::Ptr(0), Owner::Inline], ..F_ONE },
             Form { o: [Owner::Ptr(ANS_OFF + 16), Owner::Inline], ..F_ONE },
@@ -728,10 +736,10 @@ mod v_socket_dns {
             Form { rdlen_delta: [1, 0], ..F_ONE },
             Form { cut: 11, ..F_ONE },
             Form { cut: 12, ..F_ONE },
-            Form { cut: 21, ..F_ONE },
-            Form { cut: 22, ..F_ONE },
-            Form { cut: 33, ..F_ONE },
-            Form { cut: 37, ..F_ONE },
+            Form { cut: ANS_OFF - 1, ..F_ONE },
+            Form { cut: ANS_OFF, ..F_ONE },
+            Form { cut: ANS_OFF + 11, ..F_ONE },
+            Form { cut: ANS_OFF + 15, ..F_ONE },
         );
         assert!(!o.completed, "prop:c19_malformed_response_never_completes_query");
         kani::cover!(sel == 1 && o.acc && o.id_ok && o.port_ok && o.question_ok && o.qr && o.an == 1 && !o.failed, "record of another class: response dropped");
@@ -853,7 +861,7 @@ mod v_socket_dns {
         servers: [IpAddress; 2],
         mdns: bool,
         is_a: bool,
-        qn: [u8; 3],
+        qn: [u8; 2],
         txid: u16,
         port: u16,
         idx: usize,
@@ -869,7 +877,7 @@ mod v_socket_dns {
 
     /// Overwrite the fresh query in slot 0 with an arbitrary state a history of dispatches can leave.
     fn any_pending(s: &mut Socket, now: i64, ns: usize, servers: [IpAddress; 2], is_a: bool) -> DPre {
-        let qn: [u8; 3] = kani::any();
+        let qn: [u8; 2] = kani::any();
         let txid: u16 = kani::any();
         let port: u16 = kani::any();
         kani::assume(port > 1024);
@@ -901,14 +909,28 @@ mod v_socket_dns {
         DPre { ns, servers, mdns, is_a, qn, txid, port, idx, ta, ra, delay }
     }
 
-    fn unspec(a: &IpAddress) -> bool {
-        match a {
-            IpAddress::Ipv4(x) => x.octets() == [0, 0, 0, 0],
-            IpAddress::Ipv6(x) => x.octets() == [0u8; 16],
+    /// a == b decided on one symbolic octet position (IpAddress == IpAddress is a 16-byte memcmp loop for IPv6)
+    fn same_addr(a: &IpAddress, b: &IpAddress) -> bool {
+        let j = any_lt(16);
+        match (a, b) {
+            (IpAddress::Ipv4(x), IpAddress::Ipv4(y)) => j >= 4 || x.octets()[j] == y.octets()[j],
+            (IpAddress::Ipv6(x), IpAddress::Ipv6(y)) => x.octets()[j] == y.octets()[j],
+            _ => false,
         }
     }
 
-    const QLEN: usize = 22; // 12-byte header + <2>xx<1>x<0> + TYPE + CLASS
+    fn unspec(a: &IpAddress) -> bool {
+        match a {
+            IpAddress::Ipv4(x) => {
+                let o = x.octets();
+                o[0] == 0 && o[1] == 0 && o[2] == 0 && o[3] == 0
+            }
+            // only the (concrete) mDNS group reaches this arm
+            IpAddress::Ipv6(x) => x.octets()[0] == 0 && x.octets()[15] == 0,
+        }
+    }
+
+    const QLEN: usize = 21; // 12-byte header + <1>x<1>y<0> + TYPE + CLASS
 
     struct Emit {
         seen: bool,
@@ -919,8 +941,8 @@ mod v_socket_dns {
         len: usize,
         iplen: usize,
         hop: u8,
-        /// payload byte at the symbolic probe index chosen before the call
-        byte_k: u8,
+        /// the whole 21-byte query, copied with concrete indices
+        b: [u8; QLEN],
     }
 
     // @harness props=C19,C13 cfg=KN tier=q to=900 mem=6 unwind=26 opts=nomem covers=6 funcs=dns::Socket::dispatch;wire::dns::Repr::emit;wire::dns::Question::emit;InterfaceInner::get_source_address bounds=one_pending_query_(name_<2>xx<1>x,_A/AAAA,_unicast_or_mDNS)_in_any_state_a_dispatch_history_can_leave:_server_idx<servers,_delay_1..10_s,_timeout_at/retransmit_at_anywhere_up_to_now+10_s;_0..=2_IPv4_servers_with_symbolic_octets;_now<2^40_ms;_emit_returns_symbolic_Ok/Err
@@ -932,14 +954,13 @@ mod v_socket_dns {
         let ns = any_le(2);
         let mut s = Socket::new(&servers[..ns], &mut slots[..1]);
         let is_a: bool = kani::any();
-        let _h = s.start_query(cx, "ab.c", if is_a { Type::A } else { Type::Aaaa }).unwrap();
+        let _h = s.start_query(cx, QNAME, if is_a { Type::A } else { Type::Aaaa }).unwrap();
         let g = any_pending(&mut s, now, ns, servers, is_a);
         crate::vdump!("PRE now={} servers={:?} {:?}", now, &servers[..ns], s.queries[0]);
 
         let zero = IpAddress::Ipv4(Ipv4Address::new(0, 0, 0, 0));
-        let mut e = Emit { seen: false, dst: zero, src: zero, sport: 0, dport: 0, len: 0, iplen: 0, hop: 0, byte_k: 0 };
+        let mut e = Emit { seen: false, dst: zero, src: zero, sport: 0, dport: 0, len: 0, iplen: 0, hop: 0, b: [0; QLEN] };
         let emit_ok: bool = kani::any();
-        let k = any_lt(QLEN);
         let res = s.dispatch(cx, |_cx, (ip, udp, payload)| {
             e.seen = true;
             e.dst = ip.dst_addr();
@@ -949,13 +970,16 @@ mod v_socket_dns {
             e.len = payload.len();
             e.iplen = ip.payload_len();
             e.hop = ip.hop_limit();
-            if k < payload.len() {
-                e.byte_k = payload[k];
+            if payload.len() == QLEN {
+                e.b = [
+                    payload[0], payload[1], payload[2], payload[3], payload[4], payload[5], payload[6], payload[7], payload[8], payload[9], payload[10],
+                    payload[11], payload[12], payload[13], payload[14], payload[15], payload[16], payload[17], payload[18], payload[19], payload[20],
+                ];
             }
             crate::vdump!("EMIT payload={:02x?}", payload);
             if emit_ok { Ok(()) } else { Err(()) }
         });
-        crate::vdump!("EMIT seen={} ok={} dst={:?}:{} sport={} len={} byte[{}]={:#x} res={:?}", e.seen, emit_ok, e.dst, e.dport, e.sport, e.len, k, e.byte_k, res);
+        crate::vdump!("EMIT seen={} ok={} dst={:?}:{} sport={} len={} res={:?}", e.seen, emit_ok, e.dst, e.dport, e.sport, e.len, res);
         crate::vdump!("POST {:?}", s.queries[0]);
 
         // reference
@@ -985,38 +1009,41 @@ mod v_socket_dns {
                 // identity never changes
                 assert!(
                     pq.txid == g.txid && pq.port == g.port && pq.type_ == (if is_a { Type::A } else { Type::Aaaa })
-                        && pq.name.len() == 6 && pq.name[1] == g.qn[0] && pq.name[2] == g.qn[1] && pq.name[4] == g.qn[2],
+                        && pq.name.len() == 5 && pq.name[1] == g.qn[0] && pq.name[3] == g.qn[1],
                     "prop:c19_dispatch_keeps_query_identity"
                 );
-                let ra1 = pq.retransmit_at.total_millis();
-                let d1 = pq.delay.total_millis();
+                // compared as Instant / Duration (total_millis() would put a 64-bit division into the formula)
+                let ra1 = pq.retransmit_at;
+                let d1 = pq.delay;
+                let ms = |t: i64| Instant::from_millis(t);
                 if e.seen {
                     assert!(now >= g.ra || timed_out, "prop:c19_transmits_only_at_or_after_retransmit_at");
-                    assert!(e.dst == eff[idx1], "prop:c19_query_sent_to_current_server");
+                    assert!(same_addr(&e.dst, &eff[idx1]), "prop:c19_query_sent_to_current_server");
                     assert!(e.dport == (if g.mdns { 5353 } else { 53 }), "prop:c19_query_sent_to_port_53_or_mdns_port");
                     assert!(e.sport == g.port, "prop:c19_query_sent_from_query_port");
                     assert!(e.len == QLEN && e.iplen == 8 + QLEN, "prop:c19_query_length");
                     let ty = type_val(is_a);
                     let want: [u8; QLEN] = [
                         (g.txid >> 8) as u8, g.txid as u8, 0x01, 0x00, 0, 1, 0, 0, 0, 0, 0, 0,
-                        2, g.qn[0], g.qn[1], 1, g.qn[2], 0, (ty >> 8) as u8, ty as u8, 0, 1,
+                        1, g.qn[0], 1, g.qn[1], 0, (ty >> 8) as u8, ty as u8, 0, 1,
                     ];
-                    assert!(e.byte_k == want[k], "prop:c19_query_carries_txid_name_type");
+                    let k = any_lt(QLEN);
+                    assert!(e.b[k] == want[k], "prop:c19_query_carries_txid_name_type");
                     assert!(matches!(e.src, IpAddress::Ipv4(_)) == matches!(e.dst, IpAddress::Ipv4(_)), "prop:c10_source_address_family");
                     if emit_ok {
                         // back-off: next retransmission after the current delay, delay doubled up to the cap
-                        assert!(ra1 == now + delay_eff as i64, "prop:c19_retransmission_scheduled_after_current_delay");
-                        assert!(d1 == core::cmp::min(2 * delay_eff, 10_000), "prop:c19_delay_doubles_up_to_cap");
+                        assert!(ra1 == ms(now + delay_eff as i64), "prop:c19_retransmission_scheduled_after_current_delay");
+                        assert!(d1 == Duration::from_millis(core::cmp::min(2 * delay_eff, 10_000)), "prop:c19_delay_doubles_up_to_cap");
                         // ranking argument: at a deadline either a server is consumed, or the per-server timeout instant
                         // stays put while the next deadline moves strictly (>= 1 s) forward and is <= 10 s away
-                        let dec = (idx1 > g.idx) || (idx1 == g.idx && ta1 == ta_eff && ra1 >= now + 1000);
-                        assert!(dec && ra1 <= now + 10_000, "prop:c19_progress_measure_decreases");
+                        let dec = (idx1 > g.idx) || (idx1 == g.idx && ta1 == ta_eff && ra1 >= ms(now + 1000));
+                        assert!(dec && ra1 <= ms(now + 10_000), "prop:c19_progress_measure_decreases");
                     } else {
-                        assert!(ra1 == ra_eff && d1 == delay_eff && ra1 <= now, "prop:c19_emit_error_leaves_query_due");
+                        assert!(ra1 == ms(ra_eff) && d1 == Duration::from_millis(delay_eff) && ra1 <= ms(now), "prop:c19_emit_error_leaves_query_due");
                     }
                 } else {
                     assert!(now < ra_eff, "prop:c19_due_query_is_transmitted");
-                    assert!(ra1 == ra_eff && d1 == delay_eff, "prop:c19_waiting_query_unchanged");
+                    assert!(ra1 == ms(ra_eff) && d1 == Duration::from_millis(delay_eff), "prop:c19_waiting_query_unchanged");
                 }
             }
         }
@@ -1041,7 +1068,7 @@ mod v_socket_dns {
         let ns = any_le(2);
         let mut s = Socket::new(&servers[..ns], &mut slots[..1]);
         let is_a: bool = kani::any();
-        let _h = s.start_query(cx, "ab.c", if is_a { Type::A } else { Type::Aaaa }).unwrap();
+        let _h = s.start_query(cx, QNAME, if is_a { Type::A } else { Type::Aaaa }).unwrap();
         let g = any_pending(&mut s, now, ns, servers, is_a);
         crate::vdump!("PRE now={} servers={:?} {:?}", now, &servers[..ns], s.queries[0]);
         let nowi = Instant::from_millis(now);
@@ -1318,41 +1345,4 @@ mod v_socket_dns {
 
 
 
-    // XXEXP-BEGIN
-    #[kani::proof]
-    pub(crate) fn exp_i() {
-        dns_env!(dev, iface, cx, now);
-        let mut slots: [Option<DnsQuery>; 1 + PAD] = [None, None, None];
-        let servers = [IpAddress::Ipv4(S4), IpAddress::Ipv6(S6)];
-        let mut s = Socket::new(&servers[..], &mut slots[..1]);
-        let h = s.start_query(cx, "ab.c", Type::A).unwrap();
-        let mut t = Tpl::new();
-        let hd = put_header_question(&mut t, 1);
-        let m = t.b;
-        let n = t.n;
-        let p = Packet::new_unchecked(&m[..n]);
-        let qn: [u8; 3] = kani::any();
-        let txid: u16 = kani::any();
-        s.queries[0] = Some(DnsQuery { state: State::Pending(PendingQuery {
-            name: name_of(qn), type_: Type::A, port: kani::any(), txid, timeout_at: None, retransmit_at: Instant::ZERO,
-            delay: RETRANSMIT_DELAY, server_idx: 0, mdns: MulticastDns::Disabled }) });
-        let pq = pending_of(&mut s, 0);
-        let e = eq_names(p.parse_name(&m[12..18]), p.parse_name(&pq.name));
-        assert!(e.is_ok());
-    }
-    #[kani::proof]
-    pub(crate) fn exp_j() {
-        let qn: [u8; 3] = kani::any();
-        let txid: u16 = kani::any();
-        let mut st = State::Pending(PendingQuery {
-            name: name_of(qn), type_: Type::A, port: kani::any(), txid, timeout_at: None, retransmit_at: Instant::ZERO,
-            delay: RETRANSMIT_DELAY, server_idx: 0, mdns: MulticastDns::Disabled });
-        if let State::Pending(pq) = &mut st {
-            let sl: &[u8] = &pq.name;
-            let mut i = 0;
-            while i < sl[0] { i += 1; }
-            assert!(i == 2);
-        }
-    }
-    // XXEXP-END
 }
